@@ -8,7 +8,7 @@ use spec::*;
 // 0..=12: Ok(v) <=> buffer.len() >= 8, and then v is the little-endian i64 of the first 8 bytes; a
 // shorter buffer is an Err, never a panic or an out-of-bounds read. (The function reads only the first
 // 8 bytes, so lengths above 12 add nothing.)
-// @unit name=read_uncompressed_size_prefix props=C04 kind=bounded bound=buffer_len<=12 fns=read_uncompressed_size
+// @unit name=read_uncompressed_size_prefix props=C04 kind=bounded bound=buffer_len<=12 fns=read_uncompressed_size tier=quick
 #[kani::proof]
 #[kani::unwind(10)]
 #[kani::stub(alloc::fmt::format, stub_format)]
@@ -38,7 +38,7 @@ fn read_uncompressed_size_prefix() {
 // prefix -1 ("not compressed") => Ok(exactly the bytes after the prefix); any other negative prefix =>
 // Err (never a huge allocation or a panic). A positive prefix goes to the codec engine (not decided
 // here; the default build has no codec feature and returns Err).
-// @unit name=decompress_prefix_dispatch props=C04 kind=bounded bound=input_len<=12 fns=CompressionCodec::decompress_to_buffer,read_uncompressed_size
+// @unit name=decompress_prefix_dispatch props=C04 kind=bounded bound=input_len<=12 fns=CompressionCodec::decompress_to_buffer,read_uncompressed_size tier=quick
 #[kani::proof]
 #[kani::unwind(10)]
 #[kani::stub(alloc::fmt::format, stub_format)]
